@@ -241,6 +241,13 @@ Import ListNotations.
 """
 
 
+def write_if_changed(path, txt):
+    if not os.path.exists(path) or open(path).read() != txt:
+        os.makedirs(os.path.dirname(path), exist_ok=True)
+        open(path, "w").write(txt)
+        print("tr_llvmrules: regenerated %s" % path)
+
+
 def main():
     codes = T.read_typecodes()
     parent = T.read_hierarchy()
@@ -355,7 +362,7 @@ def main():
     out.append("].\n")
     out.append("(* LLVMVisitor::init clears symbol_ptrs / replacement_symbol_ptrs before filling them *)")
     out.append("Definition llvm_init_clears_first : bool := %s." % ("true" if clears_first else "false"))
-    T.write_if_changed(os.path.join(OUTDIR, "Gen_LlvmRules.v"), "\n".join(out) + "\n")
+    write_if_changed(os.path.join(OUTDIR, "Gen_LlvmRules.v"), "\n".join(out) + "\n")
     return 0
 
 
